@@ -28,10 +28,10 @@ TECHNIQUE = "CFG control-dependence closure + must-pass-through path queries + f
 def run(ctx: Context) -> None:
     v = CalibrateView(ctx.prog)
     ctx.analysed(v.cal)
-    r1_exits(ctx, v)
-    r2_call_discipline(ctx, v)
-    r3_formula(ctx)
-    r4_checkpoint_on_every_exit(ctx, v, "R4")
+    ctx.rule(r1_exits, v)
+    ctx.rule(r2_call_discipline, v)
+    ctx.rule(r3_formula)
+    ctx.rule(r4_checkpoint_on_every_exit, v, "R4")
 
 
 def _is_precision_test(v: CalibrateView, n) -> bool | None:
